@@ -138,6 +138,7 @@ def h_ring(e0: bool, e1: bool, e2: bool, e3: bool, e4: bool, e5: bool, e6: bool,
     pre: 0 <= cls_sel < len(CLS)
     pre: SPLIT < 0 or (e0 == SB[0] and e1 == SB[1] and e2 == SB[2] and e3 == SB[3])
     pre: NP >= 10 or not (e6 or e7 or e8 or e9)
+    pre: FULL or N <= 4 or cls_sel == 0
     post: _
     """
     bits = [e0, e1, e2, e3, e4, e5, e6, e7, e8, e9][:NP]
@@ -324,8 +325,8 @@ def run(rep, tier):
     specs = []
     for fn in ("h_bfs", "h_bfs_dir", "h_ring", "h_adj", "h_match"):
         specs += [{"fn": fn, "timeout": T, "split": s, "env": dict(env, XH_FULL="0" if (q or fn == "h_match") else "1")} for s in range(ns)]
-    if q:              # LIFO/FIFO slips need 5 atoms to show: plain traversal on every 5-atom graph already in the quick tier
-        specs += [{"fn": "h_bfs", "timeout": T, "split": s, "env": {"XH_N": "5", "XH_NSPLIT": str(ns)}} for s in range(ns)]
+    if q:              # LIFO/FIFO slips and ring-perception slips need 5 atoms to show: plain traversal and ring test on every 5-atom graph already in the quick tier
+        specs += [{"fn": fn, "timeout": T, "split": s, "env": {"XH_N": "5", "XH_NSPLIT": str(ns)}} for fn in ("h_bfs", "h_ring") for s in range(ns)]
     if not q:          # thorough: the full element / class product on 4 atoms in addition to the reduced one on 5 atoms
         env4 = {"XH_N": "4", "XH_NSPLIT": str(ns), "XH_FULL": "1"}
         specs += [{"fn": fn, "timeout": T, "split": s, "env": env4} for fn in ("h_match", "h_adj") for s in range(ns)]
